@@ -6,6 +6,7 @@ REFRESH = [k for k in gen.FORMATS if k not in ("df19", "df24")]
 
 class C12(PropBase):
     id = "C12"
+    shown_columns = ('LC',)
     corr_fields = ['age']
     lean_modules = ["SqModel.Props.C12", "SqModel.Proofs.BridgePlane", "SqModel.Proofs.BridgeTable"]
     extractors = ["trans"]
